@@ -801,8 +801,81 @@ func memstore(rounds, writers int) {
 	}
 }
 
+// nonces (C03): goroutines encrypt concurrently through one shared session and through sessions of
+// their own for one partition; every record's DRK is wrapped under the same intermediate key, so the
+// 12-byte nonce at the end of Key.EncryptedKey must be different in every record ever returned
+// (and likewise the nonce at the end of Data among records that were given the same data key).
+func nonces(rounds, goroutines, opsEach int) {
+	for r := 0; r < rounds; r++ {
+		w := newWorld(config{sk: "simple", ik: "simple", shared: r%2 == 0}, uint64(r)+77)
+		shared := w.session("shared", "pn")
+		type rec struct{ wrap, data string }
+		outc := make([][]rec, goroutines)
+		errs := make([]error, goroutines)
+		var wg sync.WaitGroup
+		for gi := 0; gi < goroutines; gi++ {
+			wg.Add(1)
+			go func(gi int) {
+				defer wg.Done()
+				s := shared
+				if gi%2 == 1 {
+					var err error
+					if s, err = w.fac.GetSession("pn"); err != nil {
+						errs[gi] = err
+						return
+					}
+					defer s.Close()
+				}
+				for i := 0; i < opsEach; i++ {
+					d, err := s.Encrypt(context.Background(), []byte("nonce-payload"))
+					if err != nil {
+						errs[gi] = err
+						return
+					}
+					ek, dt := d.Key.EncryptedKey, d.Data
+					if len(ek) < 12 || len(dt) < 12 {
+						errs[gi] = errors.New("record too short to hold a nonce")
+						return
+					}
+					outc[gi] = append(outc[gi], rec{fmt.Sprintf("%d|%x", d.Key.ParentKeyMeta.Created, ek[len(ek)-12:]), fmt.Sprintf("%x|%x", ek, dt[len(dt)-12:])})
+				}
+			}(gi)
+		}
+		wg.Wait()
+		seenW, seenD := map[string]bool{}, map[string]bool{}
+		total, reusedW, reusedD := 0, 0, 0
+		for _, l := range outc {
+			for _, x := range l {
+				total++
+				if seenW[x.wrap] {
+					reusedW++
+				}
+				if seenD[x.data] {
+					reusedD++
+				}
+				seenW[x.wrap], seenD[x.data] = true, true
+			}
+		}
+		bad := ""
+		for _, e := range errs {
+			if e != nil {
+				bad = e.Error()
+			}
+		}
+		nSched++
+		tag := ""
+		if reusedW > 0 || reusedD > 0 || bad != "" {
+			tag = " VIOLATION"
+			nViol++
+		}
+		w.close()
+		fmt.Fprintf(out, "nonces round=%d goroutines=%d encrypts=%d shared_ik_cache=%v => wrap_nonce_reused=%d data_nonce_reused=%d err=%q%s\n",
+			r, goroutines, total, r%2 == 0, reusedW, reusedD, bad, tag)
+	}
+}
+
 func main() {
-	mode := flag.String("mode", "preempt", "preempt|stress|memstore")
+	mode := flag.String("mode", "preempt", "preempt|stress|memstore|nonces")
 	filter := flag.String("scenario", "", "substring filter on scenario names")
 	rounds := flag.Int("rounds", 18, "stress rounds")
 	gor := flag.Int("goroutines", 8, "stress goroutines")
@@ -816,6 +889,8 @@ func main() {
 		stress(*rounds, *gor, *opsEach, prng.FromEnv(8))
 	case "memstore":
 		memstore(*rounds, *gor)
+	case "nonces":
+		nonces(*rounds, *gor, *opsEach)
 	}
 	fmt.Fprintf(out, "SUMMARY engine=conc mode=%s schedules=%d points=%d violations=%d blocked=%d\n", *mode, nSched, nPoints, nViol, nBlocked)
 }
